@@ -213,12 +213,19 @@ def handleSrv (st : St) (kind : String) (a : Args) (obs : String) : IO St := do
   | "srv.cfg" =>
     return { st with cfg := { maxRecent := argNat a "maxRecent", maxRecentAuth := argNat a "maxRecentAuth" } }
   | "srv.boot" =>
-    let r := boot st.cfg (mkV st.oracle false) noSign (argHex a "temp") (argHex a "fresh") (argNat a "now")
+    -- a first start on the installed directory; `srv.seedweek` lines before it put archived weeks there
+    -- (`boot` is `load` on the empty disk, which is what `st.srv.disk` is when no week was seeded)
+    let r := load st.cfg (mkV st.oracle false) noSign st.srv.disk (argHex a "temp") (argHex a "fresh") (argNat a "now")
     match r with
     | some s =>
       let st := refresh { st with srv := s, srvUp := true } {} none
       if obs != "ok" then report st kind "ok" obs else return st
     | none => if obs != "fail" then report st kind "fail" obs else return st
+  | "srv.seedweek" =>
+    -- the directory was installed with a statistics history already in it (a server that has been running
+    -- for years): one archived week without devices; the window then starts 2016 slots after it
+    let w : Week := { devs := [], tso := argNat a "tso", sig := zeros 64 }
+    return { st with srv := { st.srv with disk := { st.srv.disk with weeks := st.srv.disk.weeks ++ [w] } } }
   | "srv.tear" =>
     -- a crash left the directory in a torn state (the process is gone: only the disk matters)
     let d := st.srv.disk
